@@ -204,7 +204,6 @@ SIMPLE_SAFE = frozenset(
         "whereis",  # locate binary, source, manual
         "type",  # describe command type
         "command",  # run command ignoring functions
-        "hash",  # remember command locations
         "apropos",  # search man page database
         "man",  # display manual pages
         "help",  # display shell help
